@@ -418,6 +418,27 @@ class Package:
         return out
 
 
+_SML = "application/vnd.openxmlformats-officedocument.spreadsheetml."
+REL_CONTENT_TYPES = {
+    "/officeDocument": {_SML + "sheet.main+xml", _SML + "template.main+xml",
+                        "application/vnd.ms-excel.sheet.macroenabled.main+xml",
+                        "application/vnd.ms-excel.template.macroenabled.main+xml",
+                        "application/vnd.ms-excel.addin.macroenabled.main+xml"},
+    "/worksheet": {_SML + "worksheet+xml"},
+    "/chartsheet": {_SML + "chartsheet+xml"},
+    "/styles": {_SML + "styles+xml"},
+    "/sharedStrings": {_SML + "sharedstrings+xml"},
+    "/comments": {_SML + "comments+xml"},
+    "/table": {_SML + "table+xml"},
+    "/theme": {"application/vnd.openxmlformats-officedocument.theme+xml"},
+    "/drawing": {"application/vnd.openxmlformats-officedocument.drawing+xml"},
+    "/chart": {"application/vnd.openxmlformats-officedocument.drawingml.chart+xml"},
+    "/vmlDrawing": {"application/vnd.openxmlformats-officedocument.vmldrawing"},
+    "/vbaProject": {"application/vnd.ms-office.vbaproject"},
+}
+REL_CONTENT_TYPES = {k: {x.lower() for x in v} for k, v in REL_CONTENT_TYPES.items()}
+
+
 def _is_xml_part(name, ctype):
     low = name.lower()
     if ctype:
@@ -809,6 +830,24 @@ def validate(data):
                 if r["resolved"] is None or pkg.find(r["resolved"]) is None:
                     add("rel.target-missing", name, "Id %s Target %r does not resolve to a part" % (r["id"], r["target"]))
         rel_index[src] = {r["id"]: r for r in rels}
+
+    # content type of the target of a relationship of a well-known type (a comments part
+    # that only falls under <Default Extension="xml" ContentType="application/xml"> is not a
+    # comments part for a consumer that goes by content type)
+    if ct.present:
+        for src, rels in sorted(rel_index.items()):
+            for rid, r in sorted(rels.items(), key=lambda kv: str(kv[0])):
+                if r["external"] or r["resolved"] is None:
+                    continue
+                tp = pkg.find(r["resolved"])
+                if tp is None:
+                    continue
+                for suffix, allowed in REL_CONTENT_TYPES.items():
+                    if r["type"].endswith(suffix):
+                        got = (ct.type_of(tp) or "").lower()
+                        if got not in allowed:
+                            add("ct.wrong-type", tp, "target of a %s relationship has content type %r" % (suffix.lstrip("/"), ct.type_of(tp)))
+                        break
 
     # r:id references inside parts
     expected_type = {
@@ -1260,7 +1299,8 @@ def decode_sheet(pkg, part, sst, n_xf):
             authors = []
             a = kid(croot, "authors")
             if a is not None:
-                authors = [(_elem_text(x) or "") for x in kids(a, "author")]
+                # CT_Authors/author is an ST_Xstring (ECMA-376 part 1, 18.7.2)
+                authors = [xstring_decode(_elem_text(x) or "") for x in kids(a, "author")]
             cl = kid(croot, "commentList")
             if cl is not None:
                 for cm in kids(cl, "comment"):
